@@ -749,6 +749,54 @@ def s_constant(P):
 
 
 # ============================================================================ tables
+# ============================================================================ the "safe" getters never raise (assumed by every caller: visitor, docstring parsers)
+@contract("C03", "safe_get_expression.total", [EX + "safe_get_expression"], floor=2, replay="replay_expression")
+def c_safe_get_expression(P):
+    """safe_get_expression returns the built expression, or None when building it fails -- whatever exception the builder raises and whatever reporting
+    the failure needs: the path of the parent's file may not exist relative to the working directory (ValueError) or not exist at all for a module built
+    in memory (BuiltinModuleError).  With logging disabled nothing but the expression or None comes back either."""
+    P.expects["family"] = "safe_get_expression"
+    node = SObj("ast.expr", {"lineno": P.fresh_int("lineno")}, ident=z3.Int("node_id"), frozen=True)
+    parent = SObj("Module", {}, ident=z3.Int("scope_id"), frozen=True)
+    built = SObj("ExprName", {"name": P.fresh_str("built_name")}, ident=z3.Int("built_id"), frozen=True)
+    fails = z3.Bool("building_fails")
+    exc_kind = z3.Int("builder_exception")
+    classes = ["KeyError", "ValueError", "TypeError", "AttributeError", "RecursionError", "SyntaxError"]
+    P.assume(z3.And(exc_kind >= 0, exc_kind < len(classes)))
+
+    def get_expression(P_, a, k):
+        if not P_.branch(fails):
+            return built
+        for j, c in enumerate(classes):
+            if P_.branch(exc_kind == j):
+                raise PyExc(P_.mk_exc(c, "cannot build"))
+        raise PyExc(P_.mk_exc(classes[-1], "cannot build"))
+    P.opaque_hooks[EX + "get_expression"] = get_expression
+    path_outcome = z3.Int("relative_filepath_outcome")       # 0: a path, 1: ValueError (not under the working directory), 2: BuiltinModuleError (no file path)
+    P.assume(z3.And(path_outcome >= 0, path_outcome <= 2))
+    P.witness["relative_filepath_outcome"] = SInt(path_outcome)
+
+    def rel(P_, o):
+        if P_.branch(path_outcome == 0):
+            return SObj("pathlib.Path", {}, ident=z3.Int("path_id"), frozen=True)
+        if P_.branch(path_outcome == 1):
+            raise PyExc(P_.mk_exc("ValueError", "not relative"))
+        raise PyExc(SObj("BuiltinModuleError", {"args": ("m",)}))
+    P.attr_hooks[("Module", "relative_filepath")] = rel
+    P.attr_hooks[("pathlib.Path", "__str__")] = lambda P_, o: SStr(z3.String("path_text"))
+    logged = []
+    P.opaque_hooks["logging.Logger.error"] = lambda P_, a, k: logged.append(a)
+    log_none = z3.Bool("log_level_none")
+    level = None if P.branch(log_none) else models.NOATTR
+    kw = {"log_level": None} if level is None else {}
+    kind, res = outcome(P, lambda: call(P, EX + "safe_get_expression", node, parent, **kw))
+    P.prove("never_raises", kind == "ok", exc=(P.resolve_cls(res) if kind == "raise" else ""))
+    if kind != "ok":
+        return
+    P.prove("the_built_expression_or_none", z3.If(fails, z3.BoolVal(res is None), z3.BoolVal(res is built)))
+    P.cover("safe_get_expression")
+
+
 def lemmas(tier, seed):
     """Operator tables of the real source against the language's operator spelling; _node_map total over the expression node classes."""
     from pyvc.source import SourceIndex
